@@ -9,6 +9,14 @@ BASELINE = ("cd /repo && /venv/bin/python -m pytest -ra -q -p no:cacheprovider -
 
 # id -> (technique, level text, level note, design ref)
 CHECKS = {
+    "C02": ("differential monitor: every kernel/driver step is re-solved by an independent dense flux-form reference (O-scheme); ASan+UBSan build of the kernels in the thorough tier",
+            "Single steps of all 15 per-axis kernels through the Cython entry points (cubic arrays, a different grid per axis, zero and "
+            "non-zero rates, both delj settings incl. overflow and tiny-advection regimes) and through ctypes on non-cubic shapes, "
+            "one-step runs of one_pop..five_pops (precomputed-coefficient and on-the-fly drivers incl. mutation injection and sweep "
+            "order), multi-step constant-vs-function runs, and the Thomas solver, all compared to 1e-10 with a reference written "
+            "from the documented mathematics. The thorough tier repeats the kernel workloads on an ASan+UBSan overlay.",
+            "numpy.linalg.solve; generated Cython C of the pinned .pyx (Cython unavailable: a changed .pyx yields inconclusive); "
+            "Cython wrappers are exercised only on equal-length axes (documented domain)", "DESIGN.md §2 C02"),
     "C07": ("differential monitor at Numerics.make_extrap_func/make_extrap_log_func against the "
             "constant coefficient of synthetic polynomial models (Lagrange oracle), plus O-coal on a real model",
             "Runs the real extrapolation wrappers on hundreds of synthetic models whose grid dependence is a known "
